@@ -233,6 +233,10 @@ pub struct DPlan {
 	pub end: DEnd,
 	/// poison the Poisonable leaves first (panic under the guard)
 	pub poison: bool,
+	/// Vec-only paths: the iterator handed to `extend` / `collect` panics after
+	/// yielding this many items (the panic is caught by the scenario)
+	#[serde(default)]
+	pub iter_panics_after: Option<u8>,
 }
 
 pub const CONT_NAMES: [&str; 10] = ["Vec", "Box<[_]>", "[_;0]", "[_;1]", "[_;2]", "[_;3]", "[_;4]", "(_,)", "(_,_)", "(_,_,_)"];
@@ -281,7 +285,9 @@ pub fn gen_plan(src: &mut Src<'_>) -> DPlan {
 		4 => DEnd::IntoIter,
 		_ => DEnd::ExtendThenIntoInner,
 	};
-	DPlan { leaf, cont, n, kind, writes, end, poison: src.chance(60) }
+	let poison = src.chance(60);
+	let iter_panics_after = if src.chance(90) { Some(src.pick(3) as u8) } else { None };
+	DPlan { leaf, cont, n, kind, writes, end, poison, iter_panics_after }
 }
 
 pub struct DOutcome {
@@ -540,70 +546,193 @@ macro_rules! dispatch_leaf_cont {
 	};
 }
 
+/// Yields `limit` fresh locks (ids 2000..), then panics if `panic_at_end`.
+struct FeedIter<'a, L> {
+	mk: &'a dyn Fn(u32) -> L,
+	next: u32,
+	limit: u32,
+	panic_at_end: bool,
+	made: &'a std::cell::RefCell<Vec<u32>>,
+}
+
+impl<L> Iterator for FeedIter<'_, L> {
+	type Item = L;
+	fn next(&mut self) -> Option<L> {
+		if self.next >= self.limit {
+			if self.panic_at_end {
+				std::panic::panic_any(crate::exec::UserPanic);
+			}
+			return None;
+		}
+		let id = 2000 + self.next;
+		self.next += 1;
+		self.made.borrow_mut().push(id);
+		Some((self.mk)(id))
+	}
+}
+
+// `extend` on a collection type that may or may not implement `Extend` on the
+// tree under test (autoref specialisation: the bounded impl on `ExtProbe` wins
+// over the unbounded one on `&ExtProbe` whenever its bounds can be proved)
+#[allow(dead_code)]
+struct ExtProbe<'a, C>(std::cell::RefCell<&'a mut C>);
+#[allow(dead_code)]
+trait ExtendIfPossible<A> {
+	fn extend_if_possible(&self, it: &mut dyn Iterator<Item = A>) -> bool;
+}
+impl<C: Extend<A>, A> ExtendIfPossible<A> for ExtProbe<'_, C> {
+	fn extend_if_possible(&self, it: &mut dyn Iterator<Item = A>) -> bool {
+		self.0.borrow_mut().extend(it);
+		true
+	}
+}
+trait ExtendNotPossible<A> {
+	fn extend_if_possible(&self, it: &mut dyn Iterator<Item = A>) -> bool;
+}
+impl<C, A> ExtendNotPossible<A> for &ExtProbe<'_, C> {
+	fn extend_if_possible(&self, _it: &mut dyn Iterator<Item = A>) -> bool {
+		false
+	}
+}
+
+/// after `extend` (possibly cut short by a panicking iterator): the values
+/// that were stored before are still there, at their positions, followed by
+/// (a prefix-closed selection of) the items the iterator handed over
+fn check_values_after_extend(what: &str, plan: &DPlan, got: &[(u32, u32)], before: &[(u32, u32)], pulled: &[u32], complete: bool, out: &mut Vec<Finding>) {
+	let ok = got.len() >= before.len()
+		&& got[..before.len()] == *before
+		&& {
+			let tail: Vec<u32> = got[before.len()..].iter().map(|x| x.0).collect();
+			let all: Vec<u32> = pulled.to_vec();
+			if complete {
+				tail == all
+			} else {
+				// which of the pulled items made it in is up to the implementation
+				tail.iter().all(|x| all.contains(x)) && got[before.len()..].iter().all(|x| x.1 == 0)
+			}
+		};
+	if !ok {
+		out.push(finding(
+			format!("wrong-values-after-extend|{what}|{:?}", plan.kind),
+			format!("{what} returned (id, version) {got:?}; stored before extend: {before:?}, items pulled by extend: {pulled:?}, iterator {} (plan {plan:?})", if complete { "ran to its end" } else { "panicked" }),
+		));
+	}
+}
+
 /// The Vec-only construction / destruction paths: FromIterator, IntoIterator, Extend.
 fn run_vec_scenario<L: DLeaf>(plan: &DPlan) -> DOutcome
 where
 	for<'a> <L as Lockable>::DataMut<'a>: Sized,
 {
+	use std::panic::{catch_unwind, AssertUnwindSafe};
+	crate::exec::silence_panics();
 	let table = Arc::new(DropTable::default());
 	let mut findings = Vec::new();
 	let mut labels = vec![format!("c16.leaf.{}", L::NAME), "c16.cont.Vec".to_string(), format!("c16.kind.{:?}", plan.kind), format!("c16.end.{:?}", plan.end), "c16.vec_only_path".to_string()];
 	let n = plan.n;
 	let mut expect: Vec<(u32, u32)> = (0..n as u32).map(|i| (i, 0)).collect();
 	let mk = |i: u32| L::mk(Tracked { id: i, ver: 0, table: table.clone() });
-	let leaves: Vec<L> = (0..n as u32).map(mk).collect();
+	let made = std::cell::RefCell::new(Vec::<u32>::new());
 	let mut key = ThreadKey::get();
 	if key.is_none() {
 		return DOutcome { findings: vec![finding("harness|no-key".into(), "no key".into())], labels };
 	}
 	let mut ids: Vec<u32> = (0..n as u32).collect();
-	match plan.kind {
-		DKind::BoxedFromIter => {
-			let coll: Boxed<Vec<L>> = leaves.into_iter().collect();
-			{
-				apply_writes!(coll, plan, key, L, expect);
-				if plan.end == DEnd::IntoIter {
-					let got: Vec<(u32, u32)> = coll.into_iter().map(|l| { let t = L::from_inner(LockableIntoInner::into_inner(l)); (t.id, t.ver) }).collect();
-					check_values("into_iter()", plan, &got, &expect, &mut findings);
+
+	// `collect()` from an iterator that panics part-way: no collection comes
+	// into being, everything the iterator handed over is dropped exactly once
+	if let (Some(k), DEnd::Drop) = (plan.iter_panics_after, plan.end) {
+		labels.push("c16.collect_from_panicking_iterator".into());
+		let mut it = FeedIter { mk: &mk, next: 0, limit: k as u32, panic_at_end: true, made: &made };
+		let r = match plan.kind {
+			DKind::BoxedFromIter => catch_unwind(AssertUnwindSafe(|| drop((&mut it).collect::<Boxed<Vec<L>>>()))),
+			DKind::OwnedFromIter => catch_unwind(AssertUnwindSafe(|| drop((&mut it).collect::<Owned<Vec<L>>>()))),
+			_ => catch_unwind(AssertUnwindSafe(|| drop((&mut it).collect::<Retry<Vec<L>>>()))),
+		};
+		if r.is_ok() {
+			findings.push(finding(format!("panic-swallowed|collect|{:?}", plan.kind), format!("collect() returned normally although the iterator panicked (plan {plan:?})")));
+		}
+		drop(key);
+		let counts = table.counts.lock().unwrap().clone();
+		for id in made.borrow().iter() {
+			let cnt = counts.get(id).copied().unwrap_or(0);
+			if cnt != 1 {
+				findings.push(finding(
+					format!("drop-count|{:?}|collect-from-panicking-iterator", plan.kind),
+					format!("value {id}, handed over by an iterator that later panicked, was dropped {cnt} times (leaf {}, plan {plan:?})", L::NAME),
+				));
+				break;
+			}
+		}
+		return DOutcome { findings, labels };
+	}
+
+	let leaves: Vec<L> = (0..n as u32).map(&mk).collect();
+	let (limit, pan) = match plan.iter_panics_after {
+		Some(k) => (k as u32, true),
+		None => (2, false),
+	};
+	// shared tail of the three kinds: extend (where the type has it), then the destructor path
+	macro_rules! tail {
+		($coll:ident, $extend:expr) => {{
+			apply_writes!($coll, plan, key, L, expect);
+			let before = expect.clone();
+			let mut extended = false;
+			if plan.end == DEnd::ExtendThenIntoInner {
+				let mut it = FeedIter { mk: &mk, next: 0, limit, panic_at_end: pan, made: &made };
+				#[allow(clippy::redundant_closure_call)]
+				let r = catch_unwind(AssertUnwindSafe(|| ($extend)(&mut $coll, &mut it)));
+				match r {
+					Ok(true) => {
+						extended = true;
+						labels.push("c16.extended".into());
+						if pan {
+							findings.push(finding(format!("panic-swallowed|extend|{:?}", plan.kind), format!("extend() returned normally although the iterator panicked (plan {plan:?})")));
+						}
+					}
+					Ok(false) => labels.push("c16.extend_not_available_on_this_kind".into()),
+					Err(_) => {
+						extended = true;
+						labels.push("c16.extend_cut_short_by_panicking_iterator".into());
+					}
+				}
+				ids.extend(made.borrow().iter().copied());
+			}
+			let pulled: Vec<u32> = made.borrow().clone();
+			if plan.end == DEnd::IntoIter {
+				let got: Vec<(u32, u32)> = $coll.into_iter().map(|l| { let t = L::from_inner(LockableIntoInner::into_inner(l)); (t.id, t.ver) }).collect();
+				check_values("into_iter()", plan, &got, &expect, &mut findings);
+			} else {
+				let got: Vec<(u32, u32)> = FlatV::flat(LockableIntoInner::into_inner($coll)).into_iter().map(|x| { let t = L::from_inner(x); (t.id, t.ver) }).collect();
+				if extended {
+					check_values_after_extend("into_inner()", plan, &got, &before, &pulled, !pan, &mut findings);
 				} else {
-					let got: Vec<(u32, u32)> = FlatV::flat(LockableIntoInner::into_inner(coll)).into_iter().map(|x| { let t = L::from_inner(x); (t.id, t.ver) }).collect();
 					check_values("into_inner()", plan, &got, &expect, &mut findings);
 				}
 			}
+		}};
+	}
+	match plan.kind {
+		DKind::BoxedFromIter => {
+			let mut coll: Boxed<Vec<L>> = leaves.into_iter().collect();
+			tail!(coll, |c: &mut Boxed<Vec<L>>, it: &mut FeedIter<'_, L>| {
+				let probe = ExtProbe(std::cell::RefCell::new(c));
+				(&probe).extend_if_possible(it)
+			});
 		}
 		DKind::OwnedFromIter => {
 			let mut coll: Owned<Vec<L>> = leaves.into_iter().collect();
-			apply_writes!(coll, plan, key, L, expect);
-			if plan.end == DEnd::ExtendThenIntoInner {
-				coll.extend(vec![mk(2000), mk(2001)]);
-				ids.extend([2000, 2001]);
-				expect.extend([(2000, 0), (2001, 0)]);
-				labels.push("c16.extended".into());
-			}
-			if plan.end == DEnd::IntoIter {
-				let got: Vec<(u32, u32)> = coll.into_iter().map(|l| { let t = L::from_inner(LockableIntoInner::into_inner(l)); (t.id, t.ver) }).collect();
-				check_values("into_iter()", plan, &got, &expect, &mut findings);
-			} else {
-				let got: Vec<(u32, u32)> = FlatV::flat(LockableIntoInner::into_inner(coll)).into_iter().map(|x| { let t = L::from_inner(x); (t.id, t.ver) }).collect();
-				check_values("into_inner()", plan, &got, &expect, &mut findings);
-			}
+			tail!(coll, |c: &mut Owned<Vec<L>>, it: &mut FeedIter<'_, L>| {
+				c.extend(it);
+				true
+			});
 		}
 		_ => {
 			let mut coll: Retry<Vec<L>> = leaves.into_iter().collect();
-			apply_writes!(coll, plan, key, L, expect);
-			if plan.end == DEnd::ExtendThenIntoInner {
-				coll.extend(vec![mk(2000), mk(2001)]);
-				ids.extend([2000, 2001]);
-				expect.extend([(2000, 0), (2001, 0)]);
-				labels.push("c16.extended".into());
-			}
-			if plan.end == DEnd::IntoIter {
-				let got: Vec<(u32, u32)> = coll.into_iter().map(|l| { let t = L::from_inner(LockableIntoInner::into_inner(l)); (t.id, t.ver) }).collect();
-				check_values("into_iter()", plan, &got, &expect, &mut findings);
-			} else {
-				let got: Vec<(u32, u32)> = FlatV::flat(LockableIntoInner::into_inner(coll)).into_iter().map(|x| { let t = L::from_inner(x); (t.id, t.ver) }).collect();
-				check_values("into_inner()", plan, &got, &expect, &mut findings);
-			}
+			tail!(coll, |c: &mut Retry<Vec<L>>, it: &mut FeedIter<'_, L>| {
+				c.extend(it);
+				true
+			});
 		}
 	}
 	drop(key);
